@@ -72,7 +72,7 @@ def _case(draw, kind):
     row = R.ROWS[name]
     cfg = getattr(row, kind)
     c = draw(G6.circuits6(cfg))
-    o = {"deep": row.deep and draw(st.integers(0, 2)) == 0, "ign": row.tags and draw(st.integers(0, 5)) < row.ign_p,
+    o = {"deep": row.deep and draw(st.integers(0, 4)) < 2, "ign": row.tags and draw(st.integers(0, 5)) < row.ign_p,
          "frozen": draw(st.integers(0, 3)) == 0, "x": draw(row.opts) if row.opts is not None else {},
          "psi": draw(st.integers(0, 10 ** 6))}
     return {"row": name, "c": c, "o": o}
